@@ -484,3 +484,39 @@ Proof.
   destruct (H e (or_introl eq_refl)) as [A B]. rewrite (syslang_boundary users e A B). cbn. apply IH.
   intros e' He'. apply H. right. exact He'.
 Qed.
+
+(* ------------------------------------------------------------------ routes to content conversion (second pass) *)
+(* the checker rejects EVERY table that contains an unguarded site, a dispatch without the filter in front, or a symbol
+   exception anywhere else than use_node::convert -> its local convert_children *)
+Lemma forallb_false_of {A} (f : A -> bool) l x : In x l -> f x = false -> forallb f l = false.
+Proof.
+  induction l as [|y r IH]; [contradiction|]. intros [->|H] Hx; cbn; [rewrite Hx; reflexivity|].
+  rewrite (IH H Hx). apply andb_false_r.
+Qed.
+Theorem routes_reject_unguarded sites callee encl :
+  In (callee, encl, SG_None) sites -> routes_guarded sites = false.
+Proof. intros H. unfold routes_guarded. apply (forallb_false_of _ _ _ H). reflexivity. Qed.
+Theorem routes_reject_foreign_symbol sites callee encl :
+  In (callee, encl, SG_SymbolOfUse) sites -> symbol_site callee encl = false -> routes_guarded sites = false.
+Proof. intros H Hs. unfold routes_guarded. apply (forallb_false_of _ _ _ H). cbn. exact Hs. Qed.
+Theorem routes_reject_unfiltered_callee sites callee encl :
+  In (callee, encl, SG_Internal) sites -> internally_guarded callee = false -> routes_guarded sites = false.
+Proof. intros H Hs. unfold routes_guarded. apply (forallb_false_of _ _ _ H). cbn. exact Hs. Qed.
+(* an own-node site is accepted only if every caller of the enclosing function is itself accepted *)
+Theorem routes_own_node_needs_vetted_callers sites callee encl :
+  routes_guarded sites = true -> In (callee, encl, SG_OwnNode) sites ->
+  forall c2 e2 g2, In (c2, e2, g2) sites -> c2 = encl -> g2 <> SG_None /\ g2 <> SG_Internal.
+Proof.
+  intros Hr Hin c2 e2 g2 Hin2 ->. unfold routes_guarded in Hr. rewrite forallb_forall in Hr.
+  specialize (Hr _ Hin). cbn in Hr. rewrite forallb_forall in Hr. specialize (Hr _ Hin2). cbn in Hr.
+  rewrite String.eqb_refl in Hr. destruct g2; split; try discriminate; intros E; discriminate E.
+Qed.
+(* the obligation over the table cut from crates/usvg/src/parser/*.rs *)
+Theorem routes_all_guarded : routes_guarded call_sites = true.
+Proof. vm_compute. reflexivity. Qed.
+Theorem dispatch_guarded_both : dispatch_guarded elem_dispatch = true /\ dispatch_guarded clip_dispatch = true.
+Proof. split; reflexivity. Qed.
+Lemma visible_test_sites_lock :
+  visible_test_sites = ["converter::convert_doc"; "converter::convert_element"; "converter::convert_clip_path_elements";
+                        "text::collect_text_chunks_impl"]%string.
+Proof. reflexivity. Qed.
